@@ -67,6 +67,19 @@ NUMBERS = ["1", "2", "9", "0.37", "0.25", "1250", "7000", "180", "120.5", "-0.5"
 ATYPES = ["P1", "SN1a", "C1", "Qd", "TC5", "opls_135"]
 TAGS = ["FLEXIBLE", "POSRES", "STIFF"]
 FINDING_SHAPES = os.environ.get("C11_FINDING_SHAPES") == "1"
+OUT_NAMES = ["out.itp", "polymer.itp", "polymer", "PEO_v1.2", "single.top", "OUT.ITP", "sub/dir.v2/p.itp",
+             "sub/noext", "a.b.c.itp", "x.ITP.bak"]
+READ_MODES = ["plain", "symlink", "relative", "relative-dir"]
+
+
+def io_variation(rng, spec):
+    """where the output is requested and how the .top that includes it is reached"""
+    spec["out_name"] = rng.choice(OUT_NAMES)
+    spec["out_rel"] = rng.random() < 0.4
+    spec["read_mode"] = rng.choice(READ_MODES)
+    return spec
+
+
 BIB_ENTRIES = {
     "RefA": "@article{RefA,\n  author={Gr\u00fcnewald, Fabian and Doma\u0144ski, Jan},\n  journal={J. Ex\u00e4mple},\n"
             "  year={2021},\n  doi={10.1000/a}\n}\n",
@@ -242,7 +255,7 @@ def gen_case(rng, index, thorough):
         nodes = [{"id": i, "resname": rng.choice(resnames), "resid": i + 1} for i in range(nres)]
         edges = [{"source": rng.randrange(i), "target": i} for i in range(1, nres)]
         spec["seq_json"] = {"directed": False, "multigraph": False, "graph": {}, "nodes": nodes, "edges": edges}
-    return spec
+    return io_variation(rng, spec)
 
 
 def finding_cases():
@@ -282,8 +295,8 @@ def library_cases(ctx):
         if len(pairs) > limit:
             pairs = ctx.rng.sample(pairs, limit)
         for seq in singles + pairs:
-            specs.append(dict(kind="library", name="mol", lib=[lib], seq=seq,
-                              argv=["polyply", "gen_params", "-lib", lib, "-seq"] + seq))
+            specs.append(io_variation(ctx.rng, dict(kind="library", name="mol", lib=[lib], seq=seq,
+                                                    argv=["polyply", "gen_params", "-lib", lib, "-seq"] + seq)))
     return specs
 
 
@@ -360,7 +373,8 @@ def model_writable(mol):
 
 
 def case_key(spec):
-    blob = json.dumps([spec.get("files"), spec.get("lib"), spec.get("seq"), spec.get("seq_json"), spec.get("name")],
+    blob = json.dumps([spec.get("files"), spec.get("lib"), spec.get("seq"), spec.get("seq_json"), spec.get("name"),
+                       spec.get("out_name"), spec.get("out_rel"), spec.get("read_mode")],
                       sort_keys=True)
     return hashlib.sha1(blob.encode()).hexdigest()[:16]
 
@@ -452,14 +466,17 @@ def judge(ctx, case, answers):
     if links_passed:
         if not res["written"] or res["raised"] is not None:
             where = ("before the writer was called" if "write" not in res["trace"]["entered"] else
-                     "in the writer" if "write" not in passed else "after the writer returned (never flushed)")
+                     "in the writer" if "write" not in passed else
+                     "the writer returned but no file is at the requested path")
             shape = "not-written"
             if tail is not None and not tail["ok"]:
                 # the model's writer refuses this molecule too: name the reason
                 shape = why_kind(tail.get("why")) or "not-written-unwritable-molecule"
             report(ctx, shape, "mapping and link application passed but gen_params %s (%s): raised %s, "
-                            "file written: %s; input %s" % ("did not write its output", where, res["raised"],
-                                                            res["written"], describe(spec)), replay)
+                            "file at the requested path %r: %s, files that appeared instead: %s; input %s"
+                            % ("did not write its output", where, res["raised"], res.get("requested_path"),
+                               res["written"], [f for f in res.get("new_files", []) if not f.endswith((".ff", ".bib", ".json"))],
+                               describe(spec)), replay)
     if tail is not None:
         # the model's prediction of "is a file produced" and of its content
         impl_lines = canon_lines(case["lines"]) if res.get("written") and "write" in passed else None
@@ -482,7 +499,8 @@ def judge(ctx, case, answers):
                 report(ctx, (why_kind(tail.get("why")) if tail else None) or "reread-refused", "the file gen_params wrote is refused by %s: %s (%s); input %s"
                                 % ({"top": "Topology.from_gmx_topfile (through #include)", "itp": "MetaMolecule.from_itp",
                                     "flat": "Topology.from_gmx_topfile (single file: the written itp followed by "
-                                            "[ system ] / [ molecules ])"}[via],
+                                            "[ system ] / [ molecules ])"}[via]
+                                   + (" [.top reached as: %s]" % got.get("read_mode") if via == "top" else ""),
                                    got["err"], got.get("cause"), describe(spec)), replay)
                 continue
             same = ans("same_" + via)
@@ -491,9 +509,10 @@ def judge(ctx, case, answers):
                     bad = [s[0] for s in same["sections"] if not s[1]]
                     shape = why_kind(same["why"]) or ("angle-restraints-z-reversed" if not same["z_ordered"]
                                                       and bad == ["angle_restraints_z"] else "molecule-differs")
-                    report(ctx, shape, "re-read molecule (%s) differs from the built one: atoms same=%s, "
+                    report(ctx, shape, "re-read molecule (%s%s) differs from the built one: atoms same=%s, "
                                     "differing sections=%s, extra sections=%s; input %s"
-                                    % (via, same["atoms_same"], bad, same["extra_sections"], describe(spec)), replay)
+                                    % (via, ", .top reached as: %s" % got.get("read_mode") if via == "top" else "",
+                                       same["atoms_same"], bad, same["extra_sections"], describe(spec)), replay)
                 if same["wf"] and same["z_ordered"]:
                     # hypotheses of C11_roundtrip(_spec) hold: the theorem promises the round trip
                     ctx.correspond("wf-theorem", same["same"], True, replay)
@@ -524,6 +543,8 @@ def judge(ctx, case, answers):
              guarded=("0" if guarded == 0 else ">=1"), missing_links=(None if "missing" not in cap else len(cap["missing"]) > 0))
     for name in sections_hit:
         ctx.tally(section=name)
+    ctx.tally(out_name=spec.get("out_name") or "out.itp", out_path=("relative" if spec.get("out_rel") else "absolute"),
+              top_reached=spec.get("read_mode") or "plain")
     if spec["kind"] == "generated":
         fftext = "".join(spec["files"].values())
         ctx.tally(user_citations=("none" if "[ citations ]" not in fftext else
@@ -534,10 +555,11 @@ def judge(ctx, case, answers):
 
 
 def describe(spec):
+    io = " -> output %r (%s)" % (spec.get("out_name") or "out.itp", "relative" if spec.get("out_rel") else "absolute")
     if spec.get("lib"):
-        return "library %s seq %s" % (spec["lib"], spec["seq"])
-    return "generated force field (%d chars) seq %s" % (sum(len(t) for t in spec["files"].values()),
-                                                         spec.get("seq") or "json graph")
+        return "library %s seq %s%s" % (spec["lib"], spec["seq"], io)
+    return "generated force field (%d chars) seq %s%s" % (sum(len(t) for t in spec["files"].values()),
+                                                           spec.get("seq") or "json graph", io)
 
 
 # ------------------------------------------------------------------------------------------------ malformed files for the reader model
